@@ -5,6 +5,9 @@ import glob, json, os, re
 ROOT = os.path.dirname(os.path.dirname(os.path.abspath(__file__)))
 # seeds whose first run was missed by the property's check, and what was added (a stream / oracle, never a fingerprint)
 STRENGTHENED = {
+    "XU_1": "NBSP, zero-width space, BOM, soft hyphen, line separator and full-width / typographic punctuation as quoted payloads and lexer fragments",
+    "XV_2": "the types the shipped MySQL-to-Hive map knows beyond the parser's catalogue (JSON, BINARY, VARBINARY) are pinned in the DDL generator",
+    "XX_4": "keyword-shaped strays (a doubled or misplaced noise word such as DEFAULT / AS / TABLE / ASC / OUTER / DISTINCT) in the stray-token stream (the main property C08 now reports it; C07 had)",
     "XQ_2": "a select item aliased like a base column that another item reads, and clause references to that other item (one-step resolution)",
     "XQ_6": "a derived table whose alias is also the name of a WITH table of the statement",
     "XS_5": "option-shaped strays (NAME = VALUE, NAME VALUE) behind the column list and at the end of DDL statements",
